@@ -169,6 +169,11 @@ class Vector():
 		"""
 		Initialize a new Vector instance.
 		"""
+		previous = self.__dict__.get('_underlying')
+		if previous is not None:
+			# __init__ runs a second time when Vector(...) returns a ready Table;
+			# drop the registration made for the storage that is being replaced
+			_ALIAS_TRACKER.unregister(self, id(previous))
 		self._name = None
 		if name is not None:
 			self._name = name
